@@ -159,6 +159,38 @@ func runC10Child(res *lib.Result, tier string, seed int64, args []string) error 
 		sess.Close()
 		os.RemoveAll(bdir)
 	}
+	// several open files with unsaved edits: their live syntax trees sit in the LRU cache, which the worker
+	// goroutines of workspace/symbol, references and rename read concurrently WITHIN one request
+	for k := 0; k < 6; k++ {
+		sess, err := lib.StartSession(dir, lib.AllChecksOptions())
+		if err != nil {
+			return err
+		}
+		sess.Timeout = 30 * time.Second
+		for _, f := range []string{"main.lua", "util.lua", "other.lua"} {
+			sess.DidOpen(f, c10Files[f])
+		}
+		sess.Sync()
+		for _, f := range []string{"main.lua", "util.lua", "other.lua"} {
+			sess.DidChange(f, []lib.ContentChange{{Text: c10Files[f] + fmt.Sprintf("-- edit %d\n", k)}})
+		}
+		sess.Sync()
+		lib.Breadcrumb("C10 three edited open files, then workspace/symbol, references and rename of a cross-file global")
+		var waits []func() (json.RawMessage, error)
+		for rep := 0; rep < 4; rep++ {
+			for _, q := range []c10Query{{"workspace/symbol", 0, 0}, {"textDocument/references", 12, 3}, {"textDocument/rename", 12, 3}, {"textDocument/documentSymbol", 0, 0}} {
+				waits = append(waits, sess.CallAsync(q.method, c10Params(sess, q)))
+			}
+		}
+		for _, w := range waits {
+			if _, err := w(); err != nil && strings.Contains(err.Error(), "TIMEOUT") {
+				fmt.Printf("NONSERIAL %s\n", mustJSON(map[string]string{"kind": "hang", "detail": "a request with three edited open files did not answer: " + err.Error()}))
+			}
+		}
+		res.Count(fmt.Sprintf("multi-edit-%d", k), true)
+		res.Dist("multi-edited-files")
+		sess.Close()
+	}
 	for round := 0; round < rounds; round++ {
 		r := root.Fork(uint64(round))
 		sess, err := lib.StartSession(dir, lib.AllChecksOptions())
@@ -258,7 +290,7 @@ func mustJSON(v interface{}) string { b, _ := json.Marshal(v); return string(b) 
 // runC10 (parent): runs the child (same binary, which check builds with -race for C10) and turns
 // race-detector reports and non-serialisable answers into violations.
 func runC10(res *lib.Result, tier string, seed int64, args []string) error {
-	res.Rule = "flooding sessions against the real jrpc2 server built with -race: 3-6 overlapping requests drawn from {hover, definition, references, rename, documentSymbol, workspace/symbol, completion, highlight, documentColor, getVarColor, signatureHelp} with a didChange (sometimes + didSave / watched-file event) sent while they are in flight; " +
+	res.Rule = "flooding sessions against the real jrpc2 server built with -race: 3-6 overlapping requests drawn from {hover, definition, references, rename, documentSymbol, workspace/symbol, completion, highlight, documentColor, getVarColor, signatureHelp} with a didChange (sometimes + didSave / watched-file event) sent while they are in flight; sessions with three edited open files (live trees in the LRU cache) followed by overlapping workspace/symbol, references, rename; " +
 		"each answer of a request issued before the notification must equal its sequential answer before or after the edit; any race-detector report is a violation; non-trivial = every request of a flooding round (distinct by round/method/slot)"
 	work := lib.ScratchDir("c10")
 	defer os.RemoveAll(work)
